@@ -16,6 +16,8 @@ pub struct Oracles {
     pub emoticons: HashMap<&'static str, &'static str>,
     pub emoji_names: HashMap<&'static str, &'static [&'static str]>,
     pub bn_emoji_names: HashMap<&'static str, &'static [&'static str]>,
+    /// every emoji string of the emojicon tables
+    pub all_emoji: Vec<&'static str>,
 }
 
 impl Oracles {
@@ -24,17 +26,33 @@ impl Oracles {
         let rd = |n: &str| std::fs::read(data.join(n)).unwrap();
         let dict: HashMap<String, Vec<String>> = serde_json::from_slice(&rd("dictionary.json")).unwrap();
         let dict_words = dict.values().flatten().cloned().collect();
+        let emoticons = emojicon::internal::emoticons();
+        let emoji_names = emojicon::internal::emojis();
+        let bn_emoji_names = emojicon::internal::bn_emojis();
+        let mut all: HashSet<&'static str> = emoticons.values().copied().collect();
+        all.extend(emoji_names.values().flat_map(|l| l.iter().copied()));
+        all.extend(bn_emoji_names.values().flat_map(|l| l.iter().copied()));
+        let mut all_emoji: Vec<&'static str> = all.into_iter().collect();
+        all_emoji.sort();
         Oracles {
+            all_emoji,
             phonetic: Parser::new_phonetic(),
             regex: Parser::new_regex(),
             dict,
             dict_words,
             suffix: serde_json::from_slice(&rd("suffix.json")).unwrap(),
             autocorrect: serde_json::from_slice(&rd("autocorrect.json")).unwrap(),
-            emoticons: emojicon::internal::emoticons(),
-            emoji_names: emojicon::internal::emojis(),
-            bn_emoji_names: emojicon::internal::bn_emojis(),
+            emoticons,
+            emoji_names,
+            bn_emoji_names,
         }
+    }
+    /// Does the candidate contain an emoji of the emojicon tables?
+    pub fn has_table_emoji(&self, cand: &str) -> bool {
+        if cand.chars().all(|c| (c as u32) < 0xA0 || (0x0980..=0x09FF).contains(&(c as u32)) || (0x2010..=0x201F).contains(&(c as u32)) || c == '\u{200C}' || c == '\u{200D}' || c == '\u{0964}') {
+            return false;
+        }
+        self.all_emoji.iter().any(|e| cand.contains(e))
     }
     /// Avro transliteration (the oracle the statement of C03 names).
     pub fn translit(&self, s: &str) -> String {
